@@ -919,8 +919,11 @@ fn emit_history(w: &World, d: &Dom<Descriptor<Key>>, pats: &[Vec<String>]) {
                 b(sip(c) == sip(x))
             );
             // the Hasher calls of the warmed value and of the clone of the warmed value (cache filled)
-            println!("HW {} {} {}", d.name, i, abbreviate(&record(y), pats).join(" "));
-            println!("HC {} {} {}", d.name, i, abbreviate(&record(c), pats).join(" "));
+            // (only tr has a cache; the other kinds are covered by the `hash same` flags above)
+            if d.dumps[i].starts_with("tr ") {
+                println!("HW {} {} {}", d.name, i, abbreviate(&record(y), pats).join(" "));
+                println!("HC {} {} {}", d.name, i, abbreviate(&record(c), pats).join(" "));
+            }
         }
     }
     for &(i, j) in &d.pairs {
